@@ -178,12 +178,14 @@ pub fn run(ctx: &Ctx) -> Report {
 // C14 direct-drive
 
 #[derive(Clone, Debug)]
-enum Op { Add(usize), Interested(usize), NotInterested(usize), Stats(usize, u32), Rotate }
+enum Op { Add(usize), Interested(usize), NotInterested(usize), Stats(usize, u32, u32), Rotate }
 
 struct Fold { choked: bool, bad: Option<String> }
 
 pub fn run_c14_direct(ctx: &Ctx, rep: &mut Report) {
     let rt = rt();
+    // a departing peer of a client that owns everything starts the extractor: keep its files here
+    let _ = std::env::set_current_dir(&ctx.scratch);
     // a departing peer makes the manager re-announce: keep that away from the network
     script_tracker(Some(Box::new(|_| Err("tracker down (scripted)".to_string()))));
     let mut r = ctx.rng("c14");
@@ -194,6 +196,10 @@ pub fn run_c14_direct(ctx: &Ctx, rep: &mut Report) {
         let maxpeers = match r.below(4) { 0 => r.range(0, 5) as usize, 1 => r.range(9, 14) as usize, _ => r.range(0, 40) as usize };
         let rounds = r.range(3, 8) as usize;
         let tie_heavy = r.chance(1, 3);
+        // which measured rate counts depends on whether the client owns everything: 0 = nothing owned,
+        // 1 = everything owned (seeding), 2 = nothing Missing but some pieces only Reserved (still leeching)
+        let status_mode = r.below(3);
+        let same_rates = r.chance(1, 3);
         // build a history of real commands
         let mut ops: Vec<Op> = vec![];
         let mut added = 0usize;
@@ -203,10 +209,10 @@ pub fn run_c14_direct(ctx: &Ctx, rep: &mut Report) {
             if added > 0 {
                 for _ in 0..r.range(0, (added as u64) * 2) {
                     let p = r.usize(added);
-                    ops.push(match r.below(5) { 0 | 1 => Op::Interested(p), 2 => Op::NotInterested(p), _ => Op::Stats(p, if tie_heavy { r.below(3) as u32 * 100 } else { r.below(100_000) as u32 }) });
+                    ops.push(match r.below(5) { 0 | 1 => Op::Interested(p), 2 => Op::NotInterested(p), _ => { let a = if tie_heavy { r.below(3) as u32 * 100 } else { r.below(100_000) as u32 }; let b = if same_rates { a } else if tie_heavy { r.below(3) as u32 * 100 } else { r.below(100_000) as u32 }; Op::Stats(p, a, b) } });
                 }
                 if r.chance(3, 4) {
-                    for p in 0..added { if r.chance(9, 10) { ops.push(Op::Stats(p, if tie_heavy { r.below(3) as u32 * 100 } else { r.below(100_000) as u32 })); } }
+                    for p in 0..added { if r.chance(9, 10) { let a = if tie_heavy { r.below(3) as u32 * 100 } else { r.below(100_000) as u32 }; let b = if same_rates { a } else if tie_heavy { r.below(3) as u32 * 100 } else { r.below(100_000) as u32 }; ops.push(Op::Stats(p, a, b)); } }
                 }
             }
             ops.push(Op::Rotate);
@@ -216,6 +222,10 @@ pub fn run_c14_direct(ctx: &Ctx, rep: &mut Report) {
         let res = catch(|| rt.block_on(async {
             let n = 8;
             let mut s = Session::new(dummy_metainfo(n), *b"AAAAABBBBBCCCCCDDDDD");
+            for i in 0..n {
+                match status_mode { 1 => s.verif_set_status(i, Status::Have), 2 => s.verif_set_status(i, if i % 3 == 0 { Status::Reserved(1) } else { Status::Have }), _ => () }
+            }
+            let seeding = status_mode == 1;
             let mut broad = s.verif_subscribe();
             let mut folds: BTreeMap<String, Fold> = BTreeMap::new();
             let mut alive: BTreeMap<usize, bool> = BTreeMap::new();
@@ -248,8 +258,8 @@ pub fn run_c14_direct(ctx: &Ctx, rep: &mut Report) {
                             folds.remove(&format!("p{}", p));
                         }
                     },
-                    Op::Stats(p, rate) => if alive.get(p) == Some(&true) {
-                        s.verif_handle(PeerCmd::SyncStats { addr: format!("p{}", p), downloaded_rate: Some(*rate), uploaded_rate: Some(*rate), unexpected_blocks: 0 }).await.unwrap();
+                    Op::Stats(p, down, up) => if alive.get(p) == Some(&true) {
+                        s.verif_handle(PeerCmd::SyncStats { addr: format!("p{}", p), downloaded_rate: Some(*down), uploaded_rate: Some(*up), unexpected_blocks: 0 }).await.unwrap();
                     },
                     Op::Rotate => { s.verif_rotate().await.unwrap(); rotated = true; }
                 }
@@ -269,7 +279,7 @@ pub fn run_c14_direct(ctx: &Ctx, rep: &mut Report) {
                 let regular = snap.peers.iter().filter(|p| !p.am_choked && !p.optimistic_unchoke).count();
                 let optimistic = snap.peers.iter().filter(|p| !p.am_choked && p.optimistic_unchoke).count();
                 stats.2 = stats.2.max((regular + optimistic) as u64);
-                let state = || snap.peers.iter().map(|p| format!("{}:{}{}{} r={:?}", p.addr, if p.am_choked { "c" } else { "u" }, if p.interested { "I" } else { "-" }, if p.optimistic_unchoke { "o" } else { "" }, p.uploaded_rate)).collect::<Vec<_>>().join(" ");
+                let state = || snap.peers.iter().map(|p| format!("{}:{}{}{} up={:?} down={:?}", p.addr, if p.am_choked { "c" } else { "u" }, if p.interested { "I" } else { "-" }, if p.optimistic_unchoke { "o" } else { "" }, p.uploaded_rate, p.download_rate)).collect::<Vec<_>>().join(" ");
                 if regular > MAX_UNCHOKED {
                     viol = Some(("C14:more-than-10-regular-unchoked".into(), format!("{} peers unchoked (regular slots) after step {} {:?}: {}", regular, step, op, state())));
                 } else if optimistic > 1 {
@@ -289,11 +299,14 @@ pub fn run_c14_direct(ctx: &Ctx, rep: &mut Report) {
                             viol = viol.or(Some(("C14:uninterested-peer-left-unchoked".into(), format!("{} unchoked but not interested after rotation at step {}: {}", p.addr, step, state()))));
                         }
                     }
-                    let min_slot = snap.peers.iter().filter(|p| !p.am_choked && !p.optimistic_unchoke).map(|p| p.uploaded_rate.unwrap()).min();
+                    // the rate that counts: what the peer gave us while we still lack pieces, what it took
+                    // from us once we own everything
+                    let rate = |p: &PeerSnap| if seeding { p.download_rate.unwrap() } else { p.uploaded_rate.unwrap() };
+                    let min_slot = snap.peers.iter().filter(|p| !p.am_choked && !p.optimistic_unchoke).map(|p| rate(p)).min();
                     if let Some(ms) = min_slot {
                         for p in &snap.peers {
-                            if p.am_choked && p.interested && p.uploaded_rate.unwrap() > ms {
-                                viol = viol.or(Some(("C14:better-interested-peer-left-choked".into(), format!("{} (rate {}) choked while a slot holder has rate {} after rotation at step {}: {}", p.addr, p.uploaded_rate.unwrap(), ms, step, state()))));
+                            if p.am_choked && p.interested && rate(p) > ms {
+                                viol = viol.or(Some(("C14:better-interested-peer-left-choked".into(), format!("{} (rate {}) choked while a slot holder has rate {} after rotation at step {} (client owns everything: {}): {}", p.addr, rate(p), ms, step, seeding, state()))));
                             }
                         }
                     }
